@@ -57,7 +57,9 @@ add("C05", "other",
 
 add("C08", "other",
     "Partial. Proved in Coq (PropC08.v): the VM model's error path leaves the main machine clean (sp, frames, closures, child "
-    "contexts, ip) and keeps the globals. Not proved: that code compiled at shifted offsets behaves the same "
+    "contexts, ip) and keeps the globals; a run that ends in an error hands back exactly the reset of the state in which the "
+    "failing step ended, and code, data segment and debug table are untouched by any run (StepCode.v, over every opcode). "
+    "Not proved: that code compiled at shifted offsets behaves the same "
     "(C08_twin_sessions_statement). Decided each run by twin sessions on the real code: histories with parse errors and "
     "runtime errors of every class at depth 0-30, in loops, in suspended generators 1-3 levels deep, several in a row, "
     "against the same history without the failures; every later statement must agree. The failing histories are also "
@@ -184,7 +186,9 @@ add("C10", "other",
     "Partial. Proved in Coq on a model of Go slices (Slice.v: backing arrays, shared sub-slices, append that writes in place when "
     "capacity allows; calc's concatenation, slicing, indexing and array building written with the primitives value.go and vm.go "
     "use): no sequence of operations changes a value that already exists, for every capacity the Go runtime may choose; without "
-    "the copy before append the statement is refuted by a witness. The model is compared on every run with real value.Type values "
+    "the copy before append the statement is refuted by a witness. About the VM model (StepCode.v, a case analysis over every "
+    "opcode): no instruction writes the data segment where every literal of the program text lives, after any number of steps and "
+    "whatever the outcome, so a literal is the same value every time control passes over it. The model is compared on every run with real value.Type values "
     "(value, slice length and capacity through a verif hook) on ~250 generated operation sequences, where also every pool value is "
     "re-rendered after every operation. Whole programs (temp-register chains, literals in functions/loops/recursion, closures, "
     "generators, strings) dump all variables after every statement: unassigned variables must print as before, and the sessions "
